@@ -434,6 +434,8 @@ const MUTATIONS: &[&str] = &[
     "key-replaced-by-attacker",
     "key-attacker-added-unsigned",
     "key-standby-added-signed",
+    "key-revoked-resigned",
+    "key-revoked-vouches-for-zsk",
     "keysig-remove",
     "keysig-signature-bit",
     "attacker-resigned-all",
@@ -608,6 +610,28 @@ fn mutate(rng: &mut Rng, b: &Base, z: &Zone, atk: &Attacker, m: &str) -> Option<
             let owner = p.recs[0].owner.clone();
             p.sigs = vec![sign(&atk.key, 256, &z.name, &owner, p.qtype, &rdatas, p.sigs[0].f.labels, p.sigs[0].f.original_ttl, b.inception, b.expiration, p.recs[0].ttl, None)];
         }
+        "key-revoked-resigned" | "key-revoked-vouches-for-zsk" => {
+            // The anchored key is published with the REVOKE flag (RFC 5011 2.1) and everything is signed
+            // consistently with the flagged key (tag computed over it): a revoked key may only be used to
+            // validate its own self-signature as a revocation, never to establish trust. Either the target
+            // is signed by the revoked key itself, or by a non-anchored ZSK that only the revoked key vouches for.
+            let ki = b.key_index.min(z.keys.len() - 1);
+            let rflags = z.flags[ki] | 0x0080;
+            let revoked = PKey { owner: z.name.clone(), ttl: 3600, flags: rflags, alg: z.keys[ki].algorithm(), public: z.keys[ki].dnskey_public() };
+            let rdatas: Vec<Vec<u8>> = p.recs.iter().map(|r| r.rdata.clone()).collect();
+            let owner = p.recs[0].owner.clone();
+            let (labels, ottl, ttl) = (p.sigs[0].f.labels, p.sigs[0].f.original_ttl, p.recs[0].ttl);
+            if m == "key-revoked-resigned" {
+                p.keys = vec![revoked];
+                p.sigs = vec![sign(&z.keys[ki], rflags, &z.name, &owner, p.qtype, &rdatas, labels, ottl, b.inception, b.expiration, ttl, None)];
+            } else {
+                let zsk = PKey { owner: z.name.clone(), ttl: 3600, flags: 256, alg: atk.key.algorithm(), public: atk.key.dnskey_public() };
+                p.keys = vec![revoked, zsk];
+                p.sigs = vec![sign(&atk.key, 256, &z.name, &owner, p.qtype, &rdatas, labels, ottl, b.inception, b.expiration, ttl, None)];
+            }
+            let key_rdatas: Vec<Vec<u8>> = p.keys.iter().map(|k| k.rdata()).collect();
+            p.key_sigs = vec![sign(&z.keys[ki], rflags, &z.name, &z.name, 48, &key_rdatas, refsign::label_count(&z.name) as u8, 3600, b.inception, b.expiration, 3600, None)];
+        }
         "keysig-remove" => p.key_sigs.clear(),
         "keysig-signature-bit" => {
             let s = &mut p.key_sigs[0].sig;
@@ -739,6 +763,7 @@ fn run_history(h: &Harness, rep: &mut Reporter, steps: &[Step]) {
                 }
                 (true, Some(vd)) => {
                     rep.count("secure_justified");
+                    rep.count(&format!("secure_justified/{}", st.mutation));
                     if st.mutation == "none" {
                         rep.count("secure_on_genuine");
                     }
@@ -779,6 +804,9 @@ fn main() {
         mk_zone("Zone.Test.", &[13, 15], &[257, 256]),
         mk_zone("sec.", &[14], &[256]),
         mk_zone("rsa.example.org.", &[8, 10], &[257, 256]),
+        // the root: no DS lookup stands between the anchors and a keyset that also holds non-anchored keys,
+        // so what the keyset's own signature authenticates (stand-by keys, revoked keys) is decisive here
+        mk_zone(".", &[15, 13], &[257, 256]),
     ];
     let atk = Attacker { key: RefKey::generate(15, RSA1) };
 
